@@ -6,4 +6,5 @@ Extraction "extract/csv_model.ml"
   Csv.decode Csv.decode_chunks Csv.decode_flush Csv.decode_flush_old Csv.records_of Csv.run_dfa Csv.run_reader
   Csv.rfc4180 Csv.read_file Csv.reader_loop Csv.reader_loop_old Csv.st_init Csv.clear_completed
   Csv.decode_h Csv.h_init Csv.decode_chunks_h Csv.decode_flush_h Csv.reader_loop_h Csv.read_file_h
+  Csv.read_queue Csv.prepare
   CsvInfer.infer_dialect CsvInfer.infer_schema CsvInfer.read_csv CsvInfer.type_rows CsvInfer.is_valid CsvInfer.update.
